@@ -118,6 +118,28 @@ def encode_decode(version, local, descs, values_all_subsets, compressed):
     return ('ok', [list(v) for v in m2.template_data.value.decoded_values_all_subsets])
 
 
+def quantisation_fixpoint(version, local, descs, v):
+    """a compressed column of two values that differ below the precision of the element (v and the next float): the message
+    the encoder writes must be reproduced when its own decode is encoded again -> None or (sig, detail)"""
+    meta = {'master_table_version': version}
+    if local:
+        meta.update({'originating_centre': local[0], 'originating_subcentre': local[1], 'local_table_version': local[2]})
+    spec = message.Spec(edition=4, meta=meta, descs=descs, nsub=2, compressed=True)
+    vj = math.nextafter(v, math.inf)
+    with contextlib.redirect_stderr(io.StringIO()):
+        try:
+            b1 = CC.encoder().process(message.flat_json(spec, [[v], [vj]]), wire_template_data=False).serialized_bytes
+            m = CC.decoder().process(b1, wire_template_data=False)
+            vals = [list(x) for x in m.template_data.value.decoded_values_all_subsets]
+            b2 = CC.encoder().process(message.flat_json(spec, vals), wire_template_data=False).serialized_bytes
+        except Exception as e:
+            return None          # refusals are judged by the lattice itself
+    if b1 != b2:
+        return ('fixpoint-after-quantisation', 'values %r and %r (one raw value) encode to %s; the decode of that, %r, encodes to %s'
+                % (v, vj, b1.hex()[-24:], vals, b2.hex()[-24:]))
+    return None
+
+
 def judge_point(v, d, w, scale, ref, must_refuse_possible):
     """-> None or (sig, detail) for one decoded value d of user value v"""
     cands = admissible_roundings(v, ref, scale)
@@ -140,6 +162,13 @@ def run_lattice(defs):
         for cname, descs, w, scale, ref in contexts_for(B, d):
             inr = max(0, min((1 << w) - 2, 1))
             v_other = user_value(inr, Fraction(0), ref, scale)
+            if scale > 0 and w > 2:
+                vq = user_value(1, Fraction(0), ref, scale)
+                p.n['exec'] += 1
+                q = quantisation_fixpoint(version, local, descs, vq)
+                if q:
+                    p.violation('%s|%s' % (q[0], cname), {'version': version, 'local': local, 'descs': descs, 'value': vq, 'raw': 1,
+                                                          'delta': 'jitter', 'compressed': True, 'pre': False}, '%06d: %s' % (d, q[1]))
             for r, dl, v in typed_points(w, scale, ref):
                 cands = admissible_roundings(v, ref, scale)
                 must_refuse = all(c < 0 or c > (1 << w) - 1 for c in cands)
